@@ -22,7 +22,7 @@ Consume == l' = l + 1
 
 TraceInit ==
   /\ l = 1
-  /\ s = Init0("session", "tcp", 1, 0, 1, 1)
+  /\ s = Init0("session", "tcp", 1, 0, 1, 1, 0)
   /\ out = NoOut
 
 (* classes of errors that are "an error which is not an exception" *)
@@ -44,6 +44,7 @@ Matches(o, e) ==
     [] o.e = "done" -> MatchDone(o, e)
     [] o.e = "end" -> e.e = "end" /\ e.reason = o.reason
     [] o.e = "listener" -> e.e = "listener" /\ e.state = o.state /\ e.d = o.d
+    [] o.e = "attempt" -> e.e = "attempt" /\ e.t = s'.now
     [] OTHER -> FALSE
 
 (* a task step: silent, or emitting exactly the next logged event *)
@@ -58,7 +59,7 @@ OnCfg ==
   \* nothing may be pending from the previous scenario
   /\ \/ l = 1
      \/ s.queue = <<>> /\ s.sendq = <<>> /\ s.pc \in {"idle", "ended", "done", "aborted"}
-  /\ s' = Init0(Ev.mode, Ev.framing, Ev.queue, Ev.max_timeouts, Ev.retry[1], Ev.retry[2])
+  /\ s' = Init0(Ev.mode, Ev.framing, Ev.queue, Ev.max_timeouts, Ev.retry[1], Ev.retry[2], Ev.txid0)
   /\ out' = NoOut /\ Consume
 
 OnSubmit ==
